@@ -262,7 +262,9 @@ class Fn:
         for bi, b in enumerate(self.blocks):
             for st in b["st"]:
                 if st[0] == "a" and not st[1][1] and st[2]["r"] == "ref" and st[2]["bk"] in ("mut", "two"):
-                    mutref.setdefault(st[1][0], []).append(st[2]["p"][0])
+                    # only whole-value borrows (`&mut x`, `&mut *x`): a field borrow must not pollute its base local
+                    if all(e == "*" for e in st[2]["p"][1]):
+                        mutref.setdefault(st[1][0], []).append(st[2]["p"][0])
         if mutref:
             for bi, b in enumerate(self.blocks):
                 t = b["t"]
